@@ -5,6 +5,7 @@ import random
 
 from supcommon import *  # noqa
 from supcheck import MODEL_FILES, corr, dist_stats, COMMON_ASSUMPTIONS
+import learnfull
 
 
 def path_to_root(pred, t):
@@ -193,7 +194,7 @@ def main(tier, seed):
     from opfython.models.supervised import SupervisedOPF
     rep = Report("C17", tier, seed)
     standard_proof_phase(rep, "C17", MODEL_FILES + ["Model/Learn", "Model/RunLearn", "Proofs/Predict", "Proofs/PredictRel",
-                                                    "Proofs/Learn", "Props/C17"])
+                                                    "Proofs/Learn", "Props/C17"] + learnfull.MODEL_FILES)
     rng = random.Random(seed + 17)
     nviol = 0
     # ---- (a) relevance marking: correspondence (through run_sup_predict) + oracle
@@ -352,6 +353,8 @@ def main(tier, seed):
     bad = corr_learn(rep, "correspondence Model/Learn.prune vs SupervisedOPF.prune fed with the relevance flags of each round: final training set",
                      "C17prune", pterms, pexpect, pmetas)
     rep.corr["prune"] = dict(cases=pruned, disagreements=None if bad is None else len(bad))
+    # ---- (d) closed loop: learn / prune with fit, predict and accuracy computed by the model (Model/LearnFull.v)
+    nviol += learnfull.check(rep, tier, seed)
     rep.extra["oracle_violations"] = nviol
     rep.samples = [it.desc() for it in insts[:2]]
     rep.rule = ("(a) fitted models + batches of 1-4 queries, relevant flags compared with the model and with the winner-path definition; "
